@@ -204,8 +204,8 @@ pub fn has_op(c: &Context, f: impl Fn(&Operation) -> bool) -> bool {
 
 pub fn run_mode(ctx: &mut Ctx, mode: Mode) {
     let total = match mode {
-        Mode::Single => ctx.q(12000, 400000),
-        Mode::Party => ctx.q(2500, 100000),
+        Mode::Single => ctx.q(24000, 400000),
+        Mode::Party => ctx.q(5000, 100000),
     };
     ctx.cases("gmpc", total, |ctx, _idx| {
         let prog = gen_mpc(&mut ctx.rng, 3, 12);
